@@ -29,7 +29,24 @@ KINDS = {
     "int": [1, 2, 3], "int?": [1, None, 3], "bigint": [2 ** 53 + 1, -1, 2], "float": [1.5, 2.0, -0.5], "float?": [None, 2.5, 3.5],
     "bool": [True, False, True], "str": ["a", "b", "c"], "str?": ["a", None, "c"], "date": [D0, D1, D2], "datetime": [T0, T1, T2],
     "complex": [1j, 2 + 0j, 3 + 1j], "object": [1, "a", None], "bytes": [b"ab", b"c", b""],
+    "acc": None, "acc?": None,          # built fresh for every scenario by FACTORIES (the elements are mutable)
 }
+class Acc:
+    """a user-defined element with an IN-PLACE += (and + / 0 + x, so that the built-in sum() works): a read-only reduction
+    that folds with += would rewrite the vector's own first cell"""
+    def __init__(self, n): self.n = n
+    def __repr__(self): return f"Acc({self.n})"
+    def __eq__(self, o): return isinstance(o, Acc) and o.n == self.n
+    def __hash__(self): return hash(("Acc", self.n))
+    def __add__(self, o): return Acc(self.n + (o.n if isinstance(o, Acc) else o))
+    def __radd__(self, o): return Acc(self.n + o)
+    def __iadd__(self, o):
+        self.n += o.n if isinstance(o, Acc) else o
+        return self
+    def __lt__(self, o): return self.n < o.n
+
+
+FACTORIES = {"acc": lambda: [Acc(100), Acc(250), Acc(5)], "acc?": lambda: [Acc(100), None, Acc(5)]}
 FORMS = ("vector", "view", "donor", "rewritten", "table", "row")
 SCALARS = [2, 2.5, True, "z", None, 1j, D1, T1, 2 ** 60, b"q", 0, -1]
 HUGE_OPS = ("pow", "lshift", "mul")          # operators whose result size explodes with a huge right operand
@@ -55,7 +72,9 @@ def is_row(x):
 def observe(x):
     """type-exact image of any result"""
     if is_row(x):
-        return ("R", tuple(canon_elem(e) for e in x._underlying), (x._dtype.kind.__name__, bool(x._dtype.nullable)) if x._dtype is not None else None)
+        labels = getattr(x, "_column_map", None)
+        by_label = tuple(sorted((str(k), canon_elem(x._raw_cols[i][x._index])) for k, i in labels.items())) if isinstance(labels, dict) else None
+        return ("R", tuple(canon_elem(e) for e in x._underlying), (x._dtype.kind.__name__, bool(x._dtype.nullable)) if x._dtype is not None else None, by_label)
     if is_vec(x):
         return obs(x)
     if isinstance(x, (list, tuple)):
@@ -70,7 +89,7 @@ class Scenario:
 
     def __init__(self, kind, form, ykind=None):
         from serif import Vector, Table
-        vals = list(KINDS[kind])
+        vals = FACTORIES[kind]() if kind in FACTORIES else list(KINDS[kind])
         self.objects = {}
         self.kind, self.form = kind, form
         if form == "vector":
@@ -106,7 +125,7 @@ class Scenario:
         self.y = None
         if ykind is not None:
             if ykind == "table":
-                self.y = Table([Vector(list(KINDS[kind]), name="x"), Vector([10, 20, 30], name="s")])
+                self.y = Table([Vector(FACTORIES[kind]() if kind in FACTORIES else list(KINDS[kind]), name="x"), Vector([10, 20, 30], name="s")])
             else:
                 self.y = Vector(list(KINDS[ykind]), name="y")
             self.objects["y"] = self.y
@@ -138,6 +157,11 @@ def derivations(kind, form):
             add(f"x {name} list:{k2}", lambda sc, op=op, k2=k2: op(sc.x, list(KINDS[k2])))
             add(f"list:{k2} {name} x", lambda sc, op=op, k2=k2: op(list(KINDS[k2]), sc.x))
         add(f"x {name} short-list", lambda sc, op=op: op(sc.x, [1, 2]))
+        iop = getattr(operator, "i" + name.rstrip("_"), None)
+        if iop is not None and name not in ("eq", "ne", "lt", "le", "gt", "ge"):
+            # augmented assignment (x += 1, c <<= v): a vector defines no in-place operators, so the result is a new object
+            add(f"x {name}= scalar", lambda sc, iop=iop: iop(sc.x, 2), False)
+            add(f"x {name}= x", lambda sc, iop=iop: iop(sc.x, sc.x), False)
         add(f"x {name} x", lambda sc, op=op: op(sc.x, sc.x))
     for name, fn in (("neg", operator.neg), ("pos", operator.pos), ("abs", abs), ("invert", operator.invert), ("repr", repr), ("str", str),
                      ("len", len), ("list", lambda x: list(x)), ("iter-next", lambda x: next(iter(x))), ("bool", lambda x: bool(x)),
@@ -275,10 +299,14 @@ def writes(form):
         W.append(("t.s=list", lambda sc: setattr(sc.x, "s", [7, 8, 9])))
         W.append(("t[:,1]=", lambda sc: sc.x.__setitem__((slice(None), 1), [7, 8, 9])))
         W.append(("t.rename_column", lambda sc: sc.x.rename_column("s", "renamed")))
+        W.append(("t.rename_column(x)", lambda sc: sc.x.rename_column("x", "renamed")))
+        W.append(("swap names through views", lambda sc: (lambda a, b: (setattr(a, "name", "s"), setattr(b, "name", "x"), dir(sc.x)))(sc.x.cols()[0], sc.x.cols()[1])))
     if form == "row":
         for i in (0, 1, 2):
             W.append((f"parent.x[{i}]=", lambda sc, i=i: col_write(sc.objects["parent"]["x"], i)))
             W.append((f"parent[{i},2]=", lambda sc, i=i: col_write(sc.objects["parent"]._underlying[2], i)))
+        W.append(("parent.rename_column(x)", lambda sc: sc.objects["parent"].rename_column("x", "renamed")))
+        W.append(("parent: swap names through views", lambda sc: (lambda p: (setattr(p.cols()[0], "name", "x3"), setattr(p.cols()[2], "name", "x"), dir(p), p[0]))(sc.objects["parent"])))
         W.append(("parent.x2=list", lambda sc: setattr(sc.objects["parent"], "x2", [newval(e, 5) if e is not None else None for e in sc.objects["parent"]._underlying[1]._underlying])))
     return W
 
